@@ -31,6 +31,27 @@ for n, t in TYPES.items():
         runs['cell-' + n] = {'func': 'CellBytes', 'set': 'typ=%d' % t, 'unwind': 9}
     runs['len-' + n] = {'func': 'cellLength', 'set': 'typ=%d' % t}
 
+# DECIMAL: the metadata domain is split by (leftover integer digits, leftover fraction digits); the numbers of
+# full 9-digit groups, the sign and all byte contents stay symbolic inside each unit (loop invariants).
+def dec_assume(ix, fx):
+    p = "((_ extract 15 8) metadata)"
+    sc = "((_ extract 7 0) metadata)"
+    if fx is None:
+        if ix is None:
+            return "(= %s #x00)" % sc
+        return "(and (= %s #x00) (= (bvurem %s #x09) #x%02x))" % (sc, p, ix)
+    return "(and (not (= %s #x00)) (= (bvurem (bvsub %s %s) #x09) #x%02x) (= (bvurem %s #x09) #x%02x))" % (sc, p, sc, ix, sc, fx)
+
+runs['dec-scale0'] = {'func': 'CellBytes', 'set': 'typ=246', 'assume': dec_assume(None, None), 'tag': 'scale=0', 'wall': 900}
+DEC_ALL, DEC_DIAG = ['dec-scale0'], ['dec-scale0']
+for ix in range(9):
+    for fx in range(9):
+        n = 'dec-i%d-f%d' % (ix, fx)
+        runs[n] = {'func': 'CellBytes', 'set': 'typ=246', 'assume': dec_assume(ix, fx), 'tag': 'intg%%9=%d,scale%%9=%d,scale>0' % (ix, fx), 'wall': 900}
+        DEC_ALL.append(n)
+        if ix == fx:
+            DEC_DIAG.append(n)
+
 EV = ['IsValid', 'Type', 'Flags', 'Timestamp', 'ServerID', 'Length', 'NextPosition', 'IsFormatDescription', 'IsQuery',
       'IsRotate', 'IsXID', 'IsIntVar', 'IsRand', 'IsPreviousGTIDs', 'IsRowsQuery', 'IsTableMap', 'IsWriteRows',
       'IsUpdateRows', 'IsDeleteRows', 'Format', 'Rotate', 'IntVar', 'Rand', 'TableID']
@@ -71,6 +92,15 @@ props['C12'] = {
     'technique': GEN,
     'trusted': ["fmt.Sprintf/Fprintf for the verbs used (format string literal parsed by the generator)", "time.Unix(..).Local().Date()/Clock() yield the local broken-down time of the instant"],
     'runs': cell(TEMPORAL, exclude=['ensures:owner', 'ensures:len']),
+}
+props['C11'] = {
+    'level': 'proof',
+    'claim': "DECIMAL(p,s) decoder: with the numbers of full 9-digit groups, the sign and every byte symbolic, the three loops are proved against invariants over the documented decimal2bin layout (byte inversion for negatives; integer groups with leading zeros stripped; fraction groups zero-padded) and the result text equals [-] integer digits without leading zeros (a single 0 when none) [. exactly s fraction digits]; the result is never empty or nil. The metadata domain 1<=p<=65, 0<=s<=min(30,p) is covered by a case split on (p-s)%9 and s%9: the quick tier runs scale=0 (all leftover counts) plus the 9 diagonal (i,i) combinations with a fraction; the thorough tier runs all 81 combinations.",
+    'note': "Trusted: govc, solvers, fmt.Fprintf %d/%0Nd and strconv.AppendUint library contracts. The quick tier's case split covers 10 of the 82 metadata classes (all code paths of the integer part, each fraction-leftover case once); the remaining classes are discharged only by the thorough tier. Termination not proved.",
+    'technique': GEN,
+    'explanation': "quick tier: 10 of 82 metadata classes (see claim); thorough tier: all 82",
+    'runs': DEC_DIAG,
+    'runs_thorough': DEC_ALL,
 }
 props['C13'] = {
     'level': 'proof',
